@@ -59,6 +59,17 @@ CLAIMED = {
         technique="contract-based deductive verification (symbolic execution + exact normal form) for the kernel; bounded stand-in (deal run-time contracts) for the fixed-point clause",
         design_ref="DESIGN.md section 2, C18",
     ),
+    "C49": dict(
+        category="exploration",
+        text=("BOUNDED stand-in (never counted as proved): deal run-time contracts on the real click commands driven through click.testing.CliRunner in fresh scratch directories. "
+              "`eko runcards example` with no destination, a new relative / nested / absolute destination and an existing one must succeed, write both cards and the files must load back into cards "
+              "with the same field values; `eko run` with 1, 2, 3 paths (new- and legacy-format cards) must call eko.solve exactly once with the cards the library loads from those files and the "
+              "documented output path, and refuse 0 or 4 paths without solving; one tiny LO card pair end to end: same targets and bitwise the same operators as eko.solve. 17 evaluations. "
+              "One defect repaired by a fix commit (destinations that do not exist yet, including the default, were refused by the option parser)."),
+        note="Bounded: finite input set stated in bounded/C49_native.py; no statement about other card pairs (their round trip is C40) or the console-script wiring. Trusted: CliRunner parses options as the entry point does; eko.solve is a function of its arguments.",
+        technique="bounded stand-in for contract-based verification: deal run-time contracts on the real CLI functions over an enumerated input set (labelled bounded, not proved)",
+        design_ref="DESIGN.md section 2, C49",
+    ),
     "C40": dict(
         category="exploration",
         text=("BOUNDED stand-in, never counted as proved: YAML and the dataclass / typing reflection of eko.io.dictlike are outside the symbolic engine. `deal` run-time contracts on the real "
@@ -475,7 +486,6 @@ NA = {
     "C45": "needs LHAPDF tooling and a full solve; the reachable pure sliver cannot carry the statement",
     "C47": "two OS processes with different hash seeds: whole-process property",
     "C48": "numba compiler output vs Python definition: compiler semantics, not function contracts",
-    "C49": "click CLI and files on disk: no function-level contract within the verifier's subset",
     "C50": "needs exact RG identities for all N3LO ingredients; otherwise x-space numerics",
     "C54": "Rust reader: no Rust verifier; cross-language I/O",
 }
